@@ -191,3 +191,43 @@ FLOORS_QUICK = {
     "rel:vectorised_map:failure_cases==failing-elements:evaluated": 19,
     "rel:vectorised_map==all(f(x)):evaluated": 112,
 }
+
+
+def replay(path):
+    """Re-run the relations of a witness against the current tree.  Exit 1
+    when a violation of the same kind reproduces, 0 otherwise."""
+    import json
+    import random
+    import pandera as pa
+    import pandera.polars as pp
+    warm_up()
+    with open(path) as f:
+        d = json.load(f)
+    w, kind = d["witness"], d["kind"]
+    r = new_run()
+    found = []
+    for seed in range(8):           # the option values (k, ...) are drawn
+        rng = random.Random(seed)
+        if "alias" in w and isinstance(w["alias"], dict) and "canonical" in w["alias"]:
+            J = R.alias_relations(r, rng, pa, pp, w["alias"], w["data"],
+                                  w["level"], w["lazy"])
+        elif "groupby" in w:
+            J = R.groupby_relations(
+                r, rng, pa, w["level"], w["pred"], w["data"], w["lazy"],
+                force={"two": w.get("two_columns", False), "form": w["groupby"],
+                       "groups": w["groups"], "ignore_na": w["ignore_na"]})
+        elif w.get("backend") == "polars":
+            J = R.polars_relations(r, rng, pp, w["pred"], w["data"],
+                                   w["ignore_na"], w["lazy"])
+        elif w["level"] == "frame":
+            J = R.frame_relations(r, rng, pa, w["pred"], w["data"],
+                                  w["ignore_na"], w["lazy"])
+        else:
+            J = R.column_relations(r, rng, pa, w["level"], w["pred"],
+                                   w["data"], w["ignore_na"], w["lazy"])
+        found += [(k, m) for k, _, m in J.found]
+    for k, m in sorted(set(found), key=repr):
+        print(k, m)
+    bad = any(k == kind for k, _ in found)
+    print("REPRODUCED" if bad else "NOT REPRODUCED")
+    return 1 if bad else 0
